@@ -65,8 +65,8 @@ def reveal(ex, state, ref):
 
 
 def _fa(lo, hi, body):
-    j = fresh('hk')
-    return z3.ForAll([j], z3.Implies(z3.And(zi(lo) <= j, j < zi(hi)), body(j)))
+    from vt.e1.symexec import FA
+    return FA(lo, hi, body)
 
 
 def tt_at(ref):
